@@ -119,6 +119,9 @@ def dispatch_entries(model: Model, ci: ClassInfo) -> List[FuncInfo]:
 
 def unvisited_in_entry(ctx: TermCtx, fi: FuncInfo) -> List[Tuple[ast.Return, Term, Term]]:
     """(return stmt, leaked raw subterm, whole return term) for a dispatch entry."""
+    from .normalise import unrolled
+
+    fi = unrolled(ctx.model, fi)
     fa = ctx.analysis(fi)
     raw0 = {("param", p) for p in fi.pos_params[1:]}
     res = []
